@@ -48,19 +48,44 @@ Proof.
   - intros Hx. left. auto.
 Qed.
 
-Lemma cinv_step has_to s l s' : cinv s -> cstep has_to s l = Some s' -> cinv s'.
+(* the flusher's state and what it remembers about torn flushes *)
+Definition busy (f : fpc) : bool := match f with FFlush _ | FWriting _ _ _ _ _ => true | _ => false end.
+
+Record cinv2 (s : cstate) : Prop := {
+  c2_busy : busy (c_fpc s) = true -> c_running s = false /\ c_queue s = [];
+  c2_failed : c_failed s <> None -> c_running s = false /\ c_queue s = [] /\ busy (c_fpc s) = false;
+  c2_torn : c_torn s = true -> c_broken s = false -> c_failed s <> None
+}.
+
+Lemma cinv2_init : cinv2 c_init.
+Proof. constructor; simpl; try discriminate. intros H; congruence. Qed.
+
+(* while a flush is in progress no torn Write has gone unnoticed *)
+Lemma cinv2_busy_clean s : cinv2 s -> busy (c_fpc s) = true -> c_broken s = false -> c_torn s = false.
 Proof.
-  intros I H. destruct s as [th cx qu rn fp w clg can cc h tn lt br]. destruct l; cbn [cstep] in H.
+  intros I2 Hb Hbr. destruct (c_torn s) eqn:Ht; [|reflexivity]. exfalso.
+  pose proof (c2_torn s I2 Ht Hbr) as Hf. destruct (c2_failed s I2 Hf) as [_ [_ Hx]]. congruence.
+Qed.
+
+Lemma cinv_set_failed th cx qu rn fp w clg can cc h tn lt lt' br :
+  cinv (mkC th cx qu rn fp w clg can cc h tn lt br) -> cinv (mkC th cx qu rn fp w clg can cc h tn lt' br).
+Proof. intros I. destruct I; constructor; auto. Qed.
+
+Lemma cinv_step has_to s l s' : cinv s -> cinv2 s -> cstep has_to s l = Some s' -> cinv s'.
+Proof.
+  intros I I2 H. destruct s as [th cx qu rn fp w clg can cc h tn lt br]. destruct l; cbn [cstep] in H.
   - (* CCall *) destruct clg; [discriminate|]. inversion H; subst. apply cinv_append; auto; intros; discriminate.
-  - (* CCtxDone *) inversion H; subst. destruct I; constructor; auto.
+  - (* CCtxDone *) destruct (is_ctx_err e); [|discriminate]. inversion H; subst. destruct I; constructor; auto.
   - (* CCtx *) destruct (pc_of th t) as [[| |c| |r| |r1|r2|r3]|] eqn:Hpc; try discriminate.
-    destruct (is_ctx_err e && memb t cx); [|discriminate]. inversion H; subst.
+    destruct (opt_err_eqb (ctx_err cx t) (Some e)); [|discriminate]. inversion H; subst.
     eapply cinv_return0 with (p0 := PSelect); try eassumption; try reflexivity; try discriminate; auto.
   - (* CQuitSel *) destruct (pc_of th t) as [[| |c| |r| |r1|r2|r3]|] eqn:Hpc; try discriminate.
     destruct can; [|discriminate]. inversion H; subst.
     eapply cinv_return0 with (p0 := PSelect); try eassumption; try reflexivity; try discriminate; auto.
   - (* CEnqueue *) destruct (pc_of th t) as [[| |c| |r| |r1|r2|r3]|] eqn:Hpc; try discriminate.
-    destruct fp; try discriminate. inversion H; subst.
+    destruct fp; try discriminate.
+    destruct (ctx_err cx t) as [e0|] eqn:Hct; [|destruct lt as [e0|] eqn:Hlt]; inversion H; subst;
+      try (eapply cinv_return0 with (p0 := PSelect); try eassumption; try reflexivity; try discriminate; auto; fail).
     assert (Hnq : ~ In t (qu ++ inflight FLoop)) by (eapply (not_queued_notin _ t PSelect I); eauto; discriminate).
     eapply cinv_setpc with (p0 := PSelect); try eassumption; simpl in *.
     + intros t' Ht'. rewrite app_nil_r in *. apply in_app_or in Ht'. destruct Ht' as [Ht'|[<-|[]]]; [right|left; auto].
@@ -106,16 +131,16 @@ Proof.
     + destruct batch as [|t0 rest]; inversion H; subst.
       * eapply cinv_flusher; try eassumption; simpl; try (intros; discriminate); auto.
         pose proof (ci_qnodup _ I) as Hx. simpl in Hx. exact Hx.
-      * apply cinv_begin. exact I.
+      * apply cinv_begin; [|exact I]. intros Hbr. exact (cinv2_busy_clean _ I2 eq_refl Hbr).
   - (* FChunk *) destruct fp; try discriminate. destruct cc; [discriminate|].
     destruct (sent + k <=? length (frame_of th cur)) eqn:Hk; [|discriminate]. inversion H; subst.
     apply cinv_chunk; [apply Nat.leb_le; exact Hk|exact I].
   - (* FWriteRet *) destruct fp as [| |dn cur rest sent n|]; try discriminate.
-    assert (Hfin : forall e', (e' = None -> rest = []) ->
+    assert (Hfin : forall e' lt', (e' = None -> rest = []) ->
               cinv (mkC (finish_flush th (dn ++ cur :: rest) (n + sent) e') cx qu rn FLoop w clg can cc h
-                        (tn || torn_now sent (length (frame_of th cur))) lt
+                        (tn || torn_now sent (length (frame_of th cur))) lt'
                         (br || broken_now sent (length (frame_of th cur)) e'))).
-    { intros e' He'. unfold finish_flush.
+    { intros e' lt' He'. apply cinv_set_failed with (lt := lt). unfold finish_flush.
       destruct (ci_last _ I _ _ _ _ _ eq_refl) as [h0 Hh0]. simpl in Hh0.
       assert (Hin0 : In (cur, sent) h) by (rewrite Hh0; apply in_or_app; simpl; auto).
       pose proof (ci_bound _ I cur sent Hin0) as Hb0. simpl in Hb0.
@@ -172,7 +197,7 @@ Proof.
     + inversion H; subst. apply Hfin. discriminate.
     + destruct rest as [|t' rest'].
       * inversion H; subst. apply Hfin. reflexivity.
-      * inversion H; subst. apply cinv_next. exact I.
+      * inversion H; subst. apply cinv_next; [|exact I]. intros Hbr. exact (cinv2_busy_clean _ I2 eq_refl Hbr).
   - (* FQuit *) destruct fp; try discriminate. destruct can; [|discriminate]. inversion H; subst.
     pose proof (ci_qnodup _ I) as Hqn. simpl in Hqn. rewrite app_nil_r in Hqn.
     eapply cinv_deliver with (fp := FLoop) (tn := tn) (br := br); simpl.
@@ -219,8 +244,80 @@ Proof.
   - (* CExtClose *) inversion H; subst. apply cinv_append; auto; intros; discriminate.
 Qed.
 
-Lemma cinv_reachable has_to ls s : crun has_to c_init ls = Some s -> cinv s.
+
+Lemma cinv2_same th cx qu rn fp w clg can cc h tn lt br th' cx' w' clg' can' cc' h' :
+  cinv2 (mkC th cx qu rn fp w clg can cc h tn lt br) -> cinv2 (mkC th' cx' qu rn fp w' clg' can' cc' h' tn lt br).
+Proof. intros [J1 J2 J3]. constructor; auto. Qed.
+
+Lemma cinv2_step has_to s l s' : cinv s -> cinv2 s -> cstep has_to s l = Some s' -> cinv2 s'.
 Proof.
-  unfold crun. apply lts_invariant with (Inv := cinv); [|exact cinv_init].
-  intros s0 l s1. apply cinv_step.
+  intros I I2 H. destruct s as [th cx qu rn fp w clg can cc h tn lt br].
+  pose proof I2 as [J1 J2 J3]. simpl in J1, J2, J3.
+  destruct l; cbn [cstep] in H.
+  - destruct clg; [discriminate|]. inversion H; subst. eapply cinv2_same; eauto.
+  - destruct (is_ctx_err e); [|discriminate]. inversion H; subst. eapply cinv2_same; eauto.
+  - break_match H; inversion H; subst. eapply cinv2_same; eauto.
+  - break_match H; inversion H; subst. eapply cinv2_same; eauto.
+  - (* CEnqueue *) destruct (pc_of th t) as [[| |c| |r| |r1|r2|r3]|] eqn:Hpc; try discriminate.
+    destruct fp; try discriminate.
+    destruct (ctx_err cx t) as [e0|] eqn:Hct; [|destruct lt as [e0|] eqn:Hlt]; inversion H; subst;
+      try (eapply cinv2_same; eauto; fail).
+    constructor; simpl; try discriminate; [congruence|exact J3].
+  - (* FTimer *) destruct fp; try discriminate. destruct rn; [|discriminate]. inversion H; subst.
+    constructor; simpl; auto. intros Hf. destruct (J2 Hf) as [Hx _]. discriminate.
+  - (* FStartWrite *) destruct fp; try discriminate.
+    assert (Hnf : lt <> None -> False) by (intros Hf; destruct (J2 Hf) as [_ [_ Hx]]; discriminate).
+    destruct dl as [e|].
+    + destruct has_to; [|discriminate]. inversion H; subst. constructor; simpl; try discriminate; auto.
+      intros Hf. exfalso. auto.
+    + destruct batch as [|t0 rest]; inversion H; subst; constructor; simpl; try discriminate; auto;
+        intros Hf; exfalso; auto.
+  - (* FChunk *) destruct fp as [| |dn cur rest sent n|]; try discriminate. break_match H; inversion H; subst.
+    constructor; simpl; auto.
+  - (* FWriteRet *) destruct fp as [| |dn cur rest sent n|]; try discriminate.
+    assert (Hnf : lt <> None -> False) by (intros Hf; destruct (J2 Hf) as [_ [_ Hx]]; discriminate).
+    destruct (J1 eq_refl) as [Hrn Hqu].
+    assert (Hfin : forall e', cinv2 (mkC (finish_flush th (dn ++ cur :: rest) (n + sent) e') cx qu rn FLoop w clg can cc h
+                        (tn || torn_now sent (length (frame_of th cur)))
+                        (if attribute_torn (lens_of th (dn ++ cur :: rest)) (n + sent) then Some (tear_err e') else lt)
+                        (br || broken_now sent (length (frame_of th cur)) e'))).
+    { intros e'. constructor; simpl; try discriminate; [auto|].
+      intros Ht Hb. apply orb_false_iff in Hb. destruct Hb as [Hb Hbn].
+      destruct (attribute_torn (lens_of th (dn ++ cur :: rest)) (n + sent)) eqn:Ea; [discriminate|].
+      apply orb_true_iff in Ht. destruct Ht as [Ht|Ht]; [auto|]. exfalso.
+      destruct (ci_last _ I _ _ _ _ _ eq_refl) as [h0 Hh0]. simpl in Hh0.
+      assert (Hin0 : In (cur, sent) h) by (rewrite Hh0; apply in_or_app; simpl; auto).
+      pose proof (ci_bound _ I cur sent Hin0) as Hb0. simpl in Hb0.
+      destruct (ci_progress _ I Hb _ _ _ _ _ eq_refl) as [Hn _]. simpl in Hn.
+      rewrite lens_of_app in Ea. simpl in Ea. rewrite Hn, attribute_torn_split in Ea by exact Hb0.
+      unfold torn_now in Ht. congruence. }
+    destruct e as [x|].
+    + inversion H; subst. apply Hfin.
+    + destruct rest as [|t' rest'].
+      * inversion H; subst. apply Hfin.
+      * inversion H; subst. constructor; simpl; [auto|intros Hf; exfalso; auto|].
+        intros Ht Hb. apply orb_false_iff in Hb. destruct Hb as [Hb Hbn]. unfold broken_now in Hbn. simpl in Hbn.
+        assert (Htn : torn_now sent (length (frame_of th cur)) = false).
+        { unfold torn_now. rewrite Hbn. apply andb_false_r. }
+        rewrite Htn, orb_false_r in Ht. auto.
+  - (* FQuit *) destruct fp; try discriminate. destruct can; [|discriminate]. inversion H; subst.
+    constructor; simpl; try discriminate; auto. intros Hf. destruct (J2 Hf) as [Hx _]. auto.
+  - destruct (after_return th clg t) as [[th' clg']|] eqn:E; [|discriminate]. inversion H; subst. eapply cinv2_same; eauto.
+  - break_match H; inversion H; subst. eapply cinv2_same; eauto.
+  - break_match H; inversion H; subst. eapply cinv2_same; eauto.
+  - inversion H; subst. eapply cinv2_same; eauto.
 Qed.
+
+Definition call (s : cstate) : Prop := cinv s /\ cinv2 s.
+
+Lemma call_reachable has_to ls s : crun has_to c_init ls = Some s -> call s.
+Proof.
+  unfold crun. apply lts_invariant with (Inv := call); [|split; [exact cinv_init|exact cinv2_init]].
+  intros s0 l s1 [I I2] H. split; [eapply cinv_step; eauto|eapply cinv2_step; eauto].
+Qed.
+
+Lemma cinv_reachable has_to ls s : crun has_to c_init ls = Some s -> cinv s.
+Proof. intros H. exact (proj1 (call_reachable has_to ls s H)). Qed.
+
+Lemma cinv2_reachable has_to ls s : crun has_to c_init ls = Some s -> cinv2 s.
+Proof. intros H. exact (proj2 (call_reachable has_to ls s H)). Qed.
